@@ -2,6 +2,7 @@ import CppUModel.Proofs.MockC
 import CppUModel.Proofs.MockCAligned
 import CppUModel.Proofs.MockCNodes
 import CppUModel.Proofs.MockCReporter
+import CppUModel.Model.MockCActual
 /-!
 # C19 — the C mocking interface behaves like the C++ one
 
@@ -737,5 +738,78 @@ example : (Rep.runC {} reporterScenario).events = [.crash, .exit .longjmp, .exit
 example : (Rep.stepCWith { Rep.Req.tables with calls := [⟨"mock_c", "\"\"", some "&failureReporterForC"⟩, ⟨"mock_scope_c", "scope", none⟩] }
     (Rep.stepCWith Rep.Req.tables (Rep.stepCWith Rep.Req.tables {} .mockGlobal) (.crashOnFailure true)) (.mockScope "drv")).cur
     = some ("drv", .std) := by decide +kernel
+
+/-! ## an actual call made while mocking is disabled, and the scope's last actual call
+
+`hasReturnValue_c` and all 24 `...OrDefault_c` forwarders ask `currentMockSupport->hasReturnValue()`, that is the scope's
+`lastActualFunctionCall_`; the C++ program asks the object `actualCall()` handed out.  `Actual.actualCall` interprets the
+statement list of `MockSupport::actualCall` regenerated from MockSupport.cpp (`Gen.CMock.actualCallSteps`). -/
+
+/-- `createActualCall` makes the new checked call the scope's last call (what `.createChecked` stands for) -/
+theorem actual_call_tables_correct :
+    Gen.CMock.createActualCallBody =
+      "lastActualFunctionCall_=new MockCheckedActualCall(++actualCallOrder_,activeReporter_,expectations_);return lastActualFunctionCall_;" ∧
+    (∀ st ∈ Gen.CMock.actualCallSteps, ∀ t, st ≠ ACStep.other t) ∧
+    Actual.ignoredCallClearsLast = true := by
+  refine ⟨by decide, ?_, by decide⟩
+  intro st h t
+  simp [Gen.CMock.actualCallSteps] at h
+  rcases h with h | h | h | h | h | h | h | h <;> subst h <;> simp
+
+/-- **A call made while mocking is disabled leaves no last call behind**: whatever the scope's previous call was (also
+    one whose expectation carried a return value), `actualCall` hands out the ignored-call object and the scope's
+    `lastActualFunctionCall_` is empty afterwards, the previous call finished and deleted. -/
+theorem disabled_call_leaves_no_last (s : Actual.Sup) (ci hr : Bool) (h : s.enabled = false) :
+    (Actual.actualCall s ci hr).1.last = none ∧ (Actual.actualCall s ci hr).2 = .ignored ∧
+    Actual.supHas (Actual.actualCall s ci hr).1 = false := by
+  unfold Actual.actualCall Actual.supHas
+  cases hl : s.last <;> simp [Gen.CMock.actualCallSteps, Actual.runSteps, Actual.finishLast, h, hl]
+
+/-- **`hasReturnValue` through C = the C++ answer, after every actual call** (enabled or disabled, tracing, ignored by
+    `ignoreOtherCalls`, checked with or without a return value, whatever the previous call was): what the C table says
+    (the selected scope's last call) is what the object handed out says. -/
+theorem has_through_c_same_as_cpp (s : Actual.Sup) (ci hr : Bool) :
+    Actual.cHas (Actual.actualCall s ci hr).1 = Actual.handedHas (Actual.actualCall s ci hr).2 := by
+  unfold Actual.actualCall Actual.cHas Actual.supHas
+  cases hl : s.last <;> cases he : s.enabled <;> cases ht : s.tracing <;> cases ci <;>
+    simp [Gen.CMock.actualCallSteps, Actual.runSteps, Actual.finishLast, Actual.handedHas, hl, he, ht]
+
+/-- **Same defaulting after every actual call**: `return<Type>ValueOrDefault(d)` through C (scope's last call decides,
+    value read from the static actual call) returns what the C++ call object returns — in particular the caller's
+    default after a call made while disabled. -/
+theorem orDefault_through_c_same_as_cpp (s : Actual.Sup) (ci hr : Bool) (v d : Nat) :
+    Actual.cOrDefault (Actual.actualCall s ci hr).1 (Actual.actualCall s ci hr).2 v d =
+      Actual.cppOrDefault (Actual.actualCall s ci hr).2 v d := by
+  unfold Actual.cOrDefault Actual.cppOrDefault
+  rw [has_through_c_same_as_cpp]
+
+theorem disabled_call_gets_default_through_c (s : Actual.Sup) (ci hr : Bool) (v d : Nat) (h : s.enabled = false) :
+    Actual.cOrDefault (Actual.actualCall s ci hr).1 (Actual.actualCall s ci hr).2 v d = .inl d := by
+  have hd := disabled_call_leaves_no_last s ci hr h
+  unfold Actual.cOrDefault Actual.cHas
+  rw [hd.2.2]; rfl
+
+/-- non-vacuity: the previous call of the scope fulfilled an expectation with a return value (the scope says
+    `hasReturnValue` = true), mocking is then disabled; the next call gets the ignored object, the previous call is
+    finished and deleted, and the C table answers "no return value" / the default 5 -/
+def disabledAfterReturning : Actual.Sup := { enabled := false, last := some (0, true), next := 1 }
+
+example : disabledAfterReturning.enabled = false ∧ Actual.supHas disabledAfterReturning = true ∧
+    (Actual.actualCall disabledAfterReturning false false).1.finished = [0] ∧
+    Actual.cHas (Actual.actualCall disabledAfterReturning false false).1 = false ∧
+    Actual.cOrDefault (Actual.actualCall disabledAfterReturning false false).1
+      (Actual.actualCall disabledAfterReturning false false).2 42 5 = .inl 5 := by decide
+
+/-- non-vacuity of the general statement: an enabled call that fulfils a returning expectation answers "has" on both sides -/
+example : Actual.cHas (Actual.actualCall {} false true).1 = true ∧
+    Actual.cppOrDefault (Actual.actualCall {} false true).2 42 5 = .inr (some 42) := by decide
+
+/-- what the seeded change "test `enabled_` first" does in the model: the previous call stays the scope's last call, the C
+    table says `hasReturnValue` = 1 and reads the value from the ignored-call object (zero), the C++ object says 0 / default -/
+example :
+    let r := Actual.runSteps [.retIgnoredIfDisabled, .scopeName, .finishLast, .retTraceIfTracing, .retIgnoredIfCallIgnored,
+                              .createChecked, .withName, .retChecked] disabledAfterReturning none false false
+    Actual.cHas r.1 = true ∧ Actual.handedHas r.2 = false ∧
+    Actual.cOrDefault r.1 r.2 42 5 = .inr none ∧ Actual.cppOrDefault r.2 42 5 = .inl 5 := by decide
 
 end MockC
